@@ -17,23 +17,30 @@ from harness import coq
 LEVEL = "proof"
 COQ_TARGETS = ["theories/Properties/C25.vo"]
 PROPERTY_FILES = ["theories/Properties/C25.v"]
-RULE = ("real directory trees under a temp dir: full binary trees (dirs sub/oth) of depth 2 (quick) and 3 (thorough), every sub-shape of them, "
-        "files {a.sql,b.sql,c.txt} in every directory, one or two ignore files (.sqlfluffignore or .sqlfluff ignore_paths; 1-2 patterns from "
-        "{a.sql, sub/, *.sql, /b.sql, sub/a.sql, !a.sql}) at every level x every target directory/file x spellings {x, ./x, x/, ., ./, absolute, "
-        "absolute/, ../..} x working directories (tree root, inner directories, outside; working_path = cwd, a different directory, or the "
-        "import-time default); seeded random trees; malformed stream (missing path, empty path, other extensions, flags). Each evaluation = one "
-        "real paths_from_path call compared with the Coq model and with both oracles. non-trivial = a call on a tree where at least one ignore "
-        "spec matches at least one candidate; distinct = distinct (tree, ignore files, cwd, working_path, path, flags)")
-ASSUMPTIONS = ["no symlinks, no mount points: Path.resolve()/os.path.exists are modelled lexically ('..' never crosses a non-directory)",
-               "file and directory names are ASCII, non-empty, contain no '/', are not '.' or '..'; str.lower modelled on ASCII",
-               "pathspec is an oracle: spec.match_file tabulated with the real library for every (ignore file, file or dir/*) pair of the case; "
-               "unparsable ignore patterns (SQLFluffUserError from the loader) are outside the model",
+RULE = ("real directory trees under a temp dir: the full binary tree (directories sub/oth) of depth 2 and of depth 3 and every sub-shape of them "
+        "(25 shapes quick, 676 thorough), files {a.sql,b.sql,c.txt} in every directory, ignore files (.sqlfluffignore, .sqlfluff ignore_paths, "
+        "pyproject.toml) with 1-2 patterns from {a.sql, sub/, *.sql, /b.sql, sub/a.sql, !a.sql} in one directory (every directory) or in two "
+        "directories (chain pairs quick, all pairs thorough) x every directory and some files as target x spellings {x, ./x, x/, ., ./, absolute, "
+        "absolute/, ../x} x working directories (tree root, inner directories, a directory outside the tree) x working_path (= cwd, another "
+        "directory, the import-time default); seeded random trees (names sub/oth/Sub/a.sql, mixed-case files, 1-3 patterns incl. **, #, empty, "
+        "random flags); malformed stream (missing path, empty path, extensions '', 'sql', upper case, no extension, ignore_files=False, "
+        "check_non_existent_file). One evaluation = one real paths_from_path call, compared with the Coq model (exact output strings) and judged "
+        "by the two oracles. non-trivial = a call on a tree in which at least one ignore spec matches at least one file or directory; distinct = "
+        "distinct (tree, ignore files, cwd, working_path, path, flags)")
+ASSUMPTIONS = ["no symlinks, no mount points: Path.resolve()/os.path.exists are modelled lexically ('..' never crosses a file or a missing directory)",
+               "file and directory names are non-empty, contain no '/', are not '.' or '..' (theorem hypotheses names_ok / wf_dir: true of every POSIX "
+               "directory tree); str.lower is modelled on ASCII only",
+               "pathspec is an oracle: spec.match_file is tabulated with the real library for every (ignore file, file or dir/*) pair of the case; "
+               "unparsable ignore patterns (SQLFluffUserError raised by the loader) are outside the model",
                "os.walk visits sub-directories in scandir order and does not fail; the selection does not depend on that order (result is sorted)",
-               "exactness oracle O2 reads 'ancestor directory' as the documented search area: directories from the common path of the working "
-               "path and the given path down to the given path, then down to the file"]
-TRUSTED_BASE = ["hand model Model/Discovery.v of discovery.py, iter_intermediate_paths and the posixpath/os.walk fragments (tied by correspondence "
-                "on every case, helper functions normpath/join/abspath/relpath additionally compared with posixpath directly)",
-                "pathspec (oracle), the scanning adapter in harness/props/c25.py"]
+               "exactness oracle O2 reads 'applicable ignore file' as the documented search area: directories from the common path of the working "
+               "path and the given path down to the given path, then down to the file; ignore files above the working path are by design not read",
+               "C25_walk_spec_rel assumes the working directory is not '/'"]
+TRUSTED_BASE = ["hand model Model/Discovery.v of discovery.py, iter_intermediate_paths and the posixpath/pathlib/os.walk fragments (tied by exact-output "
+                "correspondence on every real call of the run; normpath/abspath/join/relpath/isabs/PurePath.parts/resolve additionally compared with "
+                "posixpath/pathlib on every string over {/ . a} up to length 4 (quick) / 6 (thorough))",
+                "pathspec (oracle), the scanning/encoding adapter in harness/props/c25.py (fail-closed: a decoding slip makes the comparison false; "
+                "a canary case with a wrong expectation must come back false)"]
 
 FILES = ["a.sql", "b.sql", "c.txt"]
 PATTERNS = ["a.sql", "sub/", "*.sql", "/b.sql", "sub/a.sql", "!a.sql"]
@@ -890,9 +897,9 @@ def run(ctx, coq_ok):
         shutil.rmtree(tmp, ignore_errors=True)
     if herr:
         raise herr[0]
+    ctx.coverage_extra["real_paths_from_path_calls"] = ctx.evaluations
     for _ in range(ctx.coverage_extra.get("posixpath_helper_strings", 0)):
         ctx.case(None, bucket="posixpath-helper")
-    ctx.coverage_extra["real_paths_from_path_calls"] = ctx.evaluations
 
 
 def random_case(ctx, fresh, i):
